@@ -165,6 +165,8 @@ def c03(tier, seed, replay=None):
             c["session"] = [{"g": rng.choice([1, 3]), "fault": 0}]
             c["api"] = (i + seed) % 6
             c["builtin"] = (i + seed) % 5 == 4
+            if (i + seed) % 4 == 1:       # one backward evaluation abandoned by a raising rule, then a complete one
+                c["session"] = [{"g": rng.choice([1, 3]), "fault": rng.choice([1, 2, 3])}] + c["session"]
             c["jac"] = False
         return cases
     if quick:
@@ -239,7 +241,8 @@ def c11(tier, seed, replay=None):
         for i, c in enumerate(cases):
             for b in (False, True):
                 d = dict(c)
-                d["session"] = [{"g": rng.choice([1, 3]), "fault": 0}] + ([{"g": 3, "fault": 0}] if i % 3 == 0 else [])
+                d["session"] = ([{"g": 3, "fault": rng.choice([2, 3, 4])}] if (i % 3 == 1 and not b) else []) + \
+                    [{"g": rng.choice([1, 3]), "fault": 0}] + ([{"g": 3, "fault": 0}] if i % 3 == 0 else [])
                 d["api"] = (i + seed) % 6
                 d["builtin"] = b
                 d["jac"] = False
